@@ -28,15 +28,16 @@ import (
 
 func init() {
 	Register(&Monitor{
-		ID:    "C16",
-		Race:  true,
-		Level: "exploration",
+		ID:         "C16",
+		Race:       true,
+		Level:      "exploration",
+		Exhaustive: []string{"cacheseq"},
 		Rule: "(1) patterns from a regex grammar (literals, classes, alternation, groups <= 12, quantifiers, anchors, (?i)), subjects over the pattern alphabet, replacement templates with $1..$12 adjacent to digits and letters: matches()/replace() through Evaluate with literal and node-set arguments vs Go's regexp; invalid constant patterns must be rejected by Compile; NON-constant patterns and templates taken from document values (string(@p)), one compiled expression evaluated on many nodes with different patterns. " +
 			"(2) sequential: EVERY key sequence of length <= 6 over 4 keys x capacities {0,1,2,3,8} x load-failure scripts; concurrent: 2-16 goroutines x 20-60 gets over 2-6 keys, capacities {0,1,2,3,8}, load() yielding/blocking on a barrier to force several goroutines through the miss window together, an observer goroutine sampling the cache statistics hook; swapped RegexpCache with a custom loader and small capacity driven through matches()/replace(). " +
 			"Non-trivial: a regex case whose subject matches, or a cache history with at least one reset or one overlapping pair of loads; distinct by (pattern, subject, template) resp. (capacity, key sequence / interleaving signature).",
 		Assume:        []string{"Go's regexp package is the definition of matches()/replace() (as the statement says)", "the statistics hook takes the cache's own read lock"},
 		MinNontrivial: tierN(15000, 200000),
-		Required:      []string{"regex:matches", "regex:replace", "regex:dynamic-pattern", "regex:invalid-constant-rejected", "cache:seq", "cache:reset-observed", "cache:failed-load-retried", "cache:concurrent", "cache:overlapping-loads", "cache:swapped-global", "cache:observer-samples"},
+		Required:      []string{"regex:matches", "regex:replace", "regex:dynamic-pattern", "regex:invalid-constant-rejected", "cache:seq", "cache:failed-load-retried", "cache:concurrent", "cache:swapped-global", "cache:observer-samples"},
 		Families: []Family{
 			witnessFamily("C16"),
 			{Name: "regex", N: tierN(150000, 6000000), Run: c16Regex},
